@@ -75,6 +75,9 @@ Proof.
   unfold set_flags, set_links. apply Sub_map_links; intros l; destruct (at_uid mb u l); reflexivity.
 Qed.
 
+Lemma Sub_set_next s mb n : Sub s (set_next s mb n).
+Proof. now apply Sub_same_links. Qed.
+
 Lemma Sub_reparent s old new s' : reparent s old new = Some s' -> Sub s s'.
 Proof.
   unfold reparent. destruct (old =? new); [intros E; inversion E; apply Sub_refl|].
@@ -122,7 +125,7 @@ Lemma Sub_uidcopy uids : forall s sel dest next s',
   uidcopy_loop s sel dest uids next = Some s' -> Sub s s'.
 Proof.
   induction uids as [|u r IH]; intros s sel dest next s' H; simpl in H.
-  - inversion H. apply Sub_refl.
+  - inversion H. apply Sub_set_next.
   - destruct (find_link s sel u) as [l|] eqn:F; [|eauto].
     destruct (insert_link s (lk_msg l) dest next _) as [s1|] eqn:I; [|discriminate].
     eapply Sub_trans; [eapply Sub_insert; eauto|eauto].
@@ -133,7 +136,7 @@ Lemma Sub_copy seqs : forall s sel dest next s',
   copy_loop s sel dest seqs next = Some s' -> Sub s s'.
 Proof.
   induction seqs as [|n r IH]; intros s sel dest next s' H; simpl in H.
-  - inversion H. apply Sub_refl.
+  - inversion H. apply Sub_set_next.
   - destruct (nth_error (links_sorted s sel) _) as [l|] eqn:F; [|discriminate].
     destruct (insert_link s (lk_msg l) dest next _) as [s1|] eqn:I; [|discriminate].
     eapply Sub_trans; [eapply Sub_insert; eauto|eauto].
@@ -141,13 +144,14 @@ Proof.
     apply (proj1 (in_sort_by_uid _ _)) in F. unfold links_in in F. apply filter_In in F. tauto.
 Qed.
 
-Lemma Sub_move s msg src dn fl :
-  (exists l, In l (links s) /\ lk_msg l = msg) -> Sub s (fst (move_message s msg src dn fl)).
+Lemma Sub_move s msg src su dn fl :
+  (exists l, In l (links s) /\ lk_msg l = msg) -> Sub s (fst (move_message s msg src su dn fl)).
 Proof.
   intros Hm. unfold move_message. destruct (find_name s dn) as [dm|]; [|apply Sub_refl].
   destruct (mb_id dm =? src); [apply Sub_refl|].
   destruct (insert_link s msg (mb_id dm) _ fl) as [s1|] eqn:I; [|apply Sub_refl].
-  cbn [fst]. eapply Sub_trans; [eapply Sub_insert; eauto|apply Sub_delete].
+  cbn [fst]. eapply Sub_trans; [eapply Sub_insert; eauto|].
+  eapply Sub_trans; [apply Sub_set_next|apply Sub_delete].
 Qed.
 
 Lemma Sub_uidstore_one s sel mode new u : Sub s (uidstore_one s sel mode new u).
@@ -156,11 +160,11 @@ Proof.
   assert (Hm : exists l0, In l0 (links s) /\ lk_msg l0 = lk_msg l)
     by (exists l; split; [eapply find_link_in; eauto|reflexivity]).
   destruct (negb _ && _).
-  - pose proof (Sub_move s (lk_msg l) sel SPAM (fremove NONJUNK (calc_flags (lk_flags l) new mode)) Hm) as X.
-    destruct (move_message _ _ _ _ _) as [s1 ok]. destruct ok; [exact X|apply Sub_set_flags].
+  - pose proof (Sub_move s (lk_msg l) sel u SPAM (fremove NONJUNK (calc_flags (lk_flags l) new mode)) Hm) as X.
+    destruct (move_message _ _ _ _ _ _) as [s1 ok]. destruct ok; [exact X|apply Sub_set_flags].
   - destruct (negb _ && _).
-    + pose proof (Sub_move s (lk_msg l) sel INBOX (fremove JUNK (calc_flags (lk_flags l) new mode)) Hm) as X.
-      destruct (move_message _ _ _ _ _) as [s1 ok]. destruct ok; [exact X|apply Sub_set_flags].
+    + pose proof (Sub_move s (lk_msg l) sel u INBOX (fremove JUNK (calc_flags (lk_flags l) new mode)) Hm) as X.
+      destruct (move_message _ _ _ _ _ _) as [s1 ok]. destruct ok; [exact X|apply Sub_set_flags].
     + apply Sub_set_flags.
 Qed.
 
@@ -255,7 +259,7 @@ Proof.
   - apply SubCase. apply Sub_delete.
   - apply SubCase. eapply Sub_trans; [apply Sub_delete|]. now apply Sub_same_links.
   - apply OptCase. intros s' E. eapply Sub_rename_tx; eauto.
-  - apply OptCase. intros s' E. eapply Sub_reparent; eauto.
+  - apply OptCase. intros s' E. eapply Sub_trans; [apply Sub_set_next|eapply Sub_reparent; eauto].
   - destruct (existsb _ _); [exact W|]. destruct W. constructor; auto.
   - destruct W. constructor; auto.
 Qed.
